@@ -30,10 +30,17 @@ BASE = dict(
 )
 # un-indented look-alikes of the structural lines: a lone brace with trailing blanks, a header-like line
 BRACES = [RAW + "{ ", RAW + "} ", RAW + "}\t", RAW + " }", RAW + "{{", RAW + "[Song]", RAW + "   ", RAW + "", "{", "}", "50% garbage", "0 = N 1 0 % x", "%s %d %(x)s", "100%%", "{0} {x} {} {{", "0 = TS 4 0 = B 120000", "5 = B 1 6 = A 7", "1 = N 0 0 2 = N 1 0", '3 = E solo 4 = E "x"', 'x 0 = E "section a"', "junk 0 = N 0 0", "junk 0 = B 1"]
+# numbers a lenient conversion (int(), float()) would accept although the line language does not: zero-padded lane /
+# kind indices, signs, digit-group underscores, exponents, hexadecimal
+LENIENT = dict(
+    sync=["0 = B +120000", "0 = B 120_000", "0 = B 1e5", "0 = B 120000.0", "0 = TS +4", "0 = TS 4 +2", "1_0 = B 5", "+5 = B 7", "5 = A 1_0", "0 = B 0x10", "0 = B -1", "-0 = TS 4"],
+    events=['+3 = E "x"', '3_0 = E "x"', '0x3 = E "x"', '3.0 = E "x"', '-3 = E "x"'],
+    track=["2 = N 03 0", "2 = N 00 0", "2 = N 07 0", "2 = S 02 5", "2 = N +1 0", "2 = N 1 +0", "+2 = N 1 0", "2 = N 1 0.0", "2 = N 1 0x0", "2 = N 1_0 0", "2 = N 1 1_0", "2 = S +2 5", "2 = N 10 0", "2 = N -1 0", "2 = N 1 -1"],
+)
 GARBAGE = dict(
-    sync=["", "garbage", "0 = N 0 0", '0 = E "x"', "0 = B", "0 = TS", "5 = B x", " = B 1", "5 = A", "0 = BB 1"] + BRACES,
-    events=["", "garbage", "0 = B 120000", "0 = E solo", "0 = N 0 0", '3 = E "unterminated', "3 = E", '= E "x"'] + BRACES,
-    track=["", "garbage", "2 = S 64 5", "2 = N 8 0", "2 = E two words", "0 = B 120000", '0 = E "section a"', "2 = S 2", "2 = N 0", "2 = N 0 0 0", "2 = S 1 5"] + BRACES,
+    sync=["", "garbage", "0 = N 0 0", '0 = E "x"', "0 = B", "0 = TS", "5 = B x", " = B 1", "5 = A", "0 = BB 1"] + BRACES + LENIENT["sync"],
+    events=["", "garbage", "0 = B 120000", "0 = E solo", "0 = N 0 0", '3 = E "unterminated', "3 = E", '= E "x"'] + BRACES + LENIENT["events"],
+    track=["", "garbage", "2 = S 64 5", "2 = N 8 0", "2 = E two words", "0 = B 120000", '0 = E "section a"', "2 = S 2", "2 = N 0", "2 = N 0 0 0", "2 = S 1 5"] + BRACES + LENIENT["track"],
 )
 
 SCRIPT = """{observe_src}
